@@ -21,6 +21,8 @@ package main
 //                none, unreadable -f file, bad flags: exit != 0, diagnostic, no panic
 //   cli-o-existing    -o FILE onto a file that already exists (longer / equal / shorter
 //                than the new JSON, the input itself, read-only, ...) or cannot be made
+//   cli-stdin-kinds   stdin as a pipe / a regular file (`< file`) / a socket / /dev/null / an
+//                empty file / a closed descriptor: same answer as the pipe and the named file
 //   cli-hostile-args  selectors, program texts, file names and flag values containing
 //                commas, brackets, quotes, backslashes, blanks, dashes, '='; empty
 //                arguments; flag look-alikes after the flags ended
@@ -1353,6 +1355,104 @@ func init() {
 			c14HostileSelectors(r, tierN(tier, 220, 6000), emit)
 			c14HostilePrograms(r, tierN(tier, 90, 2500), emit)
 			c14ArgShapes(r, tierN(tier, 1, 12), emit)
+		},
+	})
+}
+
+// ---------------------------------------------------------------------------------------
+// cli-stdin-kinds: "input on stdin behaves as the same bytes in a named file" whatever KIND
+// of file descriptor stdin is: a pipe, a regular file (`< data.json`, a here-document), a
+// socket, /dev/null, an empty file, a closed descriptor.
+// ---------------------------------------------------------------------------------------
+
+func c14StdinKinds(r *rand.Rand, n int, emit func(Case)) {
+	oModes := []string{"", "", "-", "out.json"}
+	for i := 0; i < n; i++ {
+		prog := c14Progs[i%len(c14Progs)]
+		if i >= 2*len(c14Progs) {
+			prog = pick(r, c14Progs)
+		}
+		oMode := oModes[(i/3)%len(oModes)]
+		var sels []string
+		if i%3 == 2 {
+			sels = []string{pick(r, c14Sels[:10])}
+		}
+		data := c14Stream(r)
+		if i%5 == 0 {
+			// more than a pipe buffer / a read-ahead buffer
+			recs := make([]string, 600+r.Intn(3000))
+			for k := range recs {
+				recs[k] = fmt.Sprintf(`{"a": %d, "list": [%d, "x"]}`, k, k%7)
+			}
+			data = []byte(strings.Join(recs, "\n") + "\n")
+		}
+		ofile := ""
+		if oMode != "" && oMode != "-" {
+			ofile = oMode
+		}
+		sc := &c14Scenario{prog: prog, dashes: strings.HasPrefix(prog.text, "-")}
+		g := fmt.Sprintf("kinds-%d", i)
+		meta := func(argv []string, what string) map[string]string {
+			return metaProg(prog.text, "argv", strings.Join(argv, " ␣ "), "stdin bytes", short(strconv.Quote(string(data))), "stdin is", what, "-o", oMode)
+		}
+		argv := sc.argv(r, prog.text, sels, oMode, "", nil)
+		pipeReq := CliReq(argv, data, true, nil, ofile)
+		all := []string{"exit", "out", "stderr", "ofile", "ofexists"}
+		// first member: the pipe (compared with the model; the model knows only bytes on stdin)
+		emit(Case{ID: g + "/pipe", Req: pipeReq, Fields: c14CliFields, Group: g, Meta: meta(argv, "a pipe (first member of the group)"), Oracle: c14Basic, NonTrivial: c14NT})
+		// (long streams: the model is asked once, the other members are tied to the first by the Group)
+		big := len(data) > 10000
+		for _, kind := range []string{"file", "socket"} {
+			emit(Case{ID: g + "/" + kind, Req: CliStdinKindReq(argv, data, kind, nil, ofile), ModelReq: pipeReq, ImplOnly: big, Fields: c14CliFields, Group: g, GroupFields: all,
+				Meta: meta(argv, map[string]string{"file": "a regular file opened for reading (`< data.json`)", "socket": "a socket"}[kind]), Oracle: c14Basic, NonTrivial: c14NT})
+		}
+		// the same bytes in a named file (apart from $file)
+		if !prog.usesFile {
+			argvF := sc.argv(r, prog.text, sels, oMode, "", []string{"named.json"})
+			emit(Case{ID: g + "/named", Req: CliReq(argvF, nil, false, []CliFile{{Name: "named.json", Data: data}}, ofile), ImplOnly: big, Fields: c14CliFields, Group: g,
+				GroupFields: []string{"exit", "out", "ofile", "ofexists"}, Meta: meta(argvF, "(not used: the bytes are in the named file named.json)"), Oracle: c14Basic, NonTrivial: c14NT})
+			// a named file while stdin is a regular file with OTHER bytes: stdin is not read
+			if i%4 == 1 {
+				emit(Case{ID: g + "/named+stdin", Req: CliStdinKindReq(argvF, []byte("[\"stdin must not be read\"]\n"), "file", []CliFile{{Name: "named.json", Data: data}}, ofile), ImplOnly: big, Fields: c14CliFields, Group: g,
+					ModelReq:    CliReq(argvF, []byte("[\"stdin must not be read\"]\n"), true, []CliFile{{Name: "named.json", Data: data}}, ofile),
+					GroupFields: []string{"exit", "out", "ofile", "ofexists"}, Meta: meta(argvF, "a regular file with other bytes, next to the file argument named.json"), Oracle: c14Basic, NonTrivial: c14NT})
+			}
+		}
+		// /dev/stdin given by name, stdin a regular file: for the model a file of that name
+		if i%4 == 2 {
+			argvD := sc.argv(r, prog.text, sels, oMode, "", []string{"/dev/stdin"})
+			gd := g + "d"
+			emit(Case{ID: gd + "/pipe", Req: CliReq(argvD, data, true, nil, ofile), ModelReq: CliReq(argvD, nil, false, []CliFile{{Name: "/dev/stdin", Data: data}}, ofile), Fields: c14CliFields, Group: gd,
+				Meta: meta(argvD, "a pipe, read through the file argument /dev/stdin"), Oracle: c14Basic, NonTrivial: c14NT})
+			emit(Case{ID: gd + "/file", Req: CliStdinKindReq(argvD, data, "file", nil, ofile), ImplOnly: big, ModelReq: CliReq(argvD, nil, false, []CliFile{{Name: "/dev/stdin", Data: data}}, ofile), Fields: c14CliFields, Group: gd, GroupFields: all,
+				Meta: meta(argvD, "a regular file, read through the file argument /dev/stdin"), Oracle: c14Basic, NonTrivial: c14NT})
+		}
+		// no bytes at all: an empty pipe, an empty regular file, /dev/null, a closed descriptor
+		if i%2 == 0 {
+			ge := g + "e"
+			emptyReq := CliReq(argv, []byte{}, true, nil, ofile)
+			emit(Case{ID: ge + "/pipe", Req: emptyReq, Fields: c14CliFields, Group: ge, Meta: meta(argv, "an empty pipe (first member of the group)"), Oracle: c14Basic,
+				NonTrivial: func(i Resp) bool { return i["exit"] != "" }})
+			for _, kind := range []string{"empty", "null", "closed"} {
+				emit(Case{ID: ge + "/" + kind, Req: CliStdinKindReq(argv, nil, kind, nil, ofile), ModelReq: emptyReq, Fields: c14CliFields, Group: ge, GroupFields: all,
+					Meta:   meta(argv, map[string]string{"empty": "an empty regular file", "null": "/dev/null", "closed": "closed (`<&-`): the Go runtime opens /dev/null in its place"}[kind]),
+					Oracle: c14Basic, NonTrivial: func(i Resp) bool { return i["exit"] != "" }})
+			}
+		}
+	}
+}
+
+func init() {
+	register(Family{
+		Name: "cli-stdin-kinds", Prop: "C14",
+		Rule: "the binary without file arguments (every program of the pool, 0-1 -r selectors, -o absent / - / a path; streams of 0-3 values, ill-formed ones, and streams of 20-150 kB) with stdin being each KIND of descriptor: a pipe (first member of the Group, compared with the model), a regular file opened for reading (the shell's `< data.json`, here-documents), a socket: exit, stdout, stderr and the -o file must equal the pipe run's (and the model's); the same bytes in a named file (exit, stdout, -o file; programs that do not mention $file); a named file while stdin is a regular file holding other bytes (stdin is not read); /dev/stdin as file argument with stdin a pipe / a regular file; and no bytes at all: an empty pipe, an empty regular file, /dev/null, a closed descriptor must agree with each other and with the model",
+		Gen: func(r *rand.Rand, tier string, emit func(Case)) {
+			if os.Getenv("JQAWK_BIN") == "" {
+				emit(Case{ID: "no-binary", Req: "cli - - - -", ImplOnly: true, Oracle: c14Basic,
+					Meta: map[string]string{"problem": "env JQAWK_BIN is not set; the C14 families run the real binary"}})
+				return
+			}
+			c14StdinKinds(r, tierN(tier, 81, 2700), emit)
 		},
 	})
 }
